@@ -82,9 +82,11 @@ PID = "C13"
 MC_QUICK = ["Symbols_MCq_scope", "Symbols_MCq_case", "Symbols_MCq_temp", "Symbols_MCq_stack", "Symbols_MCq_macro"]
 MC_THOROUGH = ["Symbols_MCt_scope", "Symbols_MCt_scope2", "Symbols_MCt_case", "Symbols_MCt_temp", "Symbols_MCt_stack",
                "Symbols_MCt_macro"]
-GEN_QUICK = ["Symbols_Gen_witness", "Symbols_Genq_scope", "Symbols_Genq_temp", "Symbols_Genq_stack", "Symbols_Genq_macro"]
-GEN_THOROUGH = ["Symbols_Gen_witness", "Symbols_Gent_scope", "Symbols_Gent_temp", "Symbols_Gent_stack",
+GEN_QUICK = ["Symbols_Genq_pplist", "Symbols_Gen_witness", "Symbols_Genq_scope", "Symbols_Genq_temp", "Symbols_Genq_stack",
+             "Symbols_Genq_macro"]
+GEN_THOROUGH = ["Symbols_Gen_witness", "Symbols_Gent_pplist", "Symbols_Gent_scope", "Symbols_Gent_temp", "Symbols_Gent_stack",
                 "Symbols_Gent_macro"]
+ALWAYS = ("Symbols_Gen_witness", "Symbols_Genq_pplist")      # never thinned out by the quick tier's sampling
 DIALECTS = ("z80", "68000")
 TREE_DEVS = set()        # deviations of the pinned tree that the replay has seen the tree under test exhibit
 PASS_CAP = "12"          # ASL_VERIF_MAX_PASSES: a program that needs more passes exits with status 97
@@ -159,12 +161,13 @@ def generate(rep, tier):
             got = fresh(r.printed, c)
             rep.part("Symbols_Gen(%s)" % c, programs=len(got))
             small += got
-        if len(small) > 4000:
+        if len([b for b in small if b["src"] not in ALWAYS]) > 4000:
             # quick: a seed-chosen sample of the exhaustive small programs is replayed (all of them in thorough)
             r0 = rng("c13/bfs-sample")
-            rep.part("generation", small_programs_generated=len(small), small_programs_replayed=4000)
-            small = [b for b in small if b["src"] == "Symbols_Gen_witness"] + \
-                r0.sample([b for b in small if b["src"] != "Symbols_Gen_witness"], 4000)
+            rep.part("generation", small_programs_generated=len(small),
+                     small_programs_replayed=4000 + len([b for b in small if b["src"] in ALWAYS]))
+            small = [b for b in small if b["src"] in ALWAYS] + \
+                r0.sample([b for b in small if b["src"] not in ALWAYS], 4000)
         yield "small", small
     else:
         for c in cfgs:
